@@ -283,6 +283,14 @@ def doFit (vals : List Nat) : String :=
   | [rb, re, mr] => let r := fitRadii (fl rb) (fl re) (fl mr); s!"{bits r.1},{bits r.2}"
   | _ => "bad-op"
 
+/-- `pinc | tiny lmNorm sqpVal violDiff pit pif penalty` : the penalty after `increase_penalty` (threshold as the code
+computes it from the norm of the multipliers and the quotient of model values); answer bits -/
+def doPinc (vals : List Nat) : String :=
+  match vals with
+  | [tiny, lm, sq, vd, pit, pif, p] =>
+    s!"{bits (increasePenalty (fl pit) (fl pif) (fl p) (penaltyThreshold (fl tiny) (fl lm) (fl sq) (fl vd)))}"
+  | _ => "bad-op"
+
 /-- `remove best | w s w s ...` : `get_index_to_remove(x_new)`; answer the index -/
 def doRemove (hdr vals : List Nat) : String :=
   match hdr with
@@ -488,6 +496,7 @@ def handle (line : String) : String :=
         | "splitnl" => doSplitNl hdr vals
         | "remove" => doRemove hdr vals
         | "fit" => doFit vals
+        | "pinc" => doPinc vals
         | _ => "bad-op"
       | _, _ => "bad-op"
     | [] => "bad-op"
